@@ -753,3 +753,127 @@ func init() {
 		return externals["encoding/json.Unmarshal"](fr, a[:2])
 	}
 }
+
+// json.Decoder over an io.Reader: the reader is drained through the interpreted io.ReadAll
+// and the first JSON value is decoded by the contract model.
+type nativeJSONDecoder struct {
+	r         iface
+	useNumber bool
+	rest      []byte
+	drained   bool
+}
+
+func (*nativeJSONDecoder) isNativeHandle() {}
+
+func (i *interpreter) jsonGenericNumber(raw []byte) value {
+	// like jsonGeneric but numbers are json.Number
+	numT := lookupType("encoding/json", "Number")
+	anyT := types.NewInterfaceType(nil, nil)
+	dec := json.NewDecoder(bytes.NewReader(raw))
+	dec.UseNumber()
+	var tree interface{}
+	if err := dec.Decode(&tree); err != nil {
+		return iface{}
+	}
+	var conv func(x interface{}) value
+	conv = func(x interface{}) value {
+		switch x := x.(type) {
+		case nil:
+			return iface{}
+		case bool:
+			return iface{t: types.Typ[types.Bool], v: x}
+		case json.Number:
+			return iface{t: numT, v: string(x)}
+		case string:
+			return iface{t: types.Typ[types.String], v: x}
+		case []interface{}:
+			out := make([]value, len(x))
+			for k, e := range x {
+				out[k] = conv(e)
+			}
+			return iface{t: types.NewSlice(anyT), v: out}
+		case map[string]interface{}:
+			m := makeMap(types.Typ[types.String], 0)
+			keys := make([]string, 0, len(x))
+			for k := range x {
+				keys = append(keys, k)
+			}
+			sort.Strings(keys)
+			for _, k := range keys {
+				m.insert(i, k, conv(x[k]))
+			}
+			return iface{t: types.NewMap(types.Typ[types.String], anyT), v: m}
+		}
+		panic(fmt.Sprintf("jsonGenericNumber %T", x))
+	}
+	return conv(tree)
+}
+
+func init() {
+	externals["encoding/json.NewDecoder"] = func(fr *frame, a []value) value {
+		return ptrTo(&nativeJSONDecoder{r: a[0].(iface)})
+	}
+	externals["(*encoding/json.Decoder).UseNumber"] = func(fr *frame, a []value) value {
+		(*(a[0].(*value))).(*nativeJSONDecoder).useNumber = true
+		return nil
+	}
+	externals["(*encoding/json.Decoder).DisallowUnknownFields"] = func(fr *frame, a []value) value { return nil }
+	externals["(*encoding/json.Decoder).Decode"] = func(fr *frame, a []value) value {
+		i := fr.i
+		d := (*(a[0].(*value))).(*nativeJSONDecoder)
+		if !d.drained {
+			d.drained = true
+			readAll := i.prog.ImportedPackage("io").Func("ReadAll")
+			r := call(i, fr, token.NoPos, readAll, []value{d.r}).(tuple)
+			if e := r[1].(iface); e.t != nil {
+				return e
+			}
+			b, ok := bytesOf(r[0])
+			if !ok {
+				panic(unsupported{"json.Decoder over symbolic bytes (byte-level parsing is outside the JSON contract model)"})
+			}
+			d.rest = b
+		}
+		dec := json.NewDecoder(bytes.NewReader(d.rest))
+		var rawv json.RawMessage
+		if err := dec.Decode(&rawv); err != nil {
+			return i.nativeError(fr, err) // io.EOF, syntax errors
+		}
+		d.rest = d.rest[dec.InputOffset():]
+		target := a[1].(iface)
+		pt, isPtr := target.t.Underlying().(*types.Pointer)
+		if !isPtr || target.v.(*value) == nil {
+			return i.newError(fr, "json: Unmarshal(non-pointer)")
+		}
+		if d.useNumber {
+			if it, ok := pt.Elem().Underlying().(*types.Interface); ok && it.NumMethods() == 0 {
+				*(target.v.(*value)) = i.jsonGenericNumber(rawv)
+				return iface{}
+			}
+		}
+		return i.jsonUnmarshalInto(fr, rawv, pt.Elem(), target.v.(*value), 0)
+	}
+	externals["(encoding/json.Number).Float64"] = func(fr *frame, a []value) value {
+		s, ok := a[0].(string)
+		if !ok {
+			panic(unsupported{"json.Number.Float64 on a symbolic number"})
+		}
+		f, err := json.Number(s).Float64()
+		if err != nil {
+			return tuple{f, fr.i.nativeError(fr, err)}
+		}
+		return tuple{f, iface{}}
+	}
+	externals["(encoding/json.Number).String"] = func(fr *frame, a []value) value { return a[0] }
+	externals["(encoding/json.Number).Int64"] = func(fr *frame, a []value) value {
+		s, ok := a[0].(string)
+		if !ok {
+			panic(unsupported{"json.Number.Int64 on a symbolic number"})
+		}
+		n, err := json.Number(s).Int64()
+		if err != nil {
+			return tuple{n, fr.i.nativeError(fr, err)}
+		}
+		return tuple{n, iface{}}
+	}
+}
